@@ -63,6 +63,7 @@ static int             compare_tabled_seq     (const void *p1, const void *p2);
 
 static int             bufr_check_desc_tableD ( BUFR_Tables *tbls, int desc , char *array );
 static int             bufr_check_loop_tableD ( BUFR_Tables *tbls, BufrTablesSet *tbl );
+static int             bufr_tabled_reaches_itself( BUFR_Tables *tbls, int desc, char *path );
 static void            bufr_merge_tableB      ( EntryTableBArray table1, EntryTableBArray table2 );
 static void            bufr_merge_tableD      ( EntryTableDArray table1, EntryTableDArray table2 );
 
@@ -746,6 +747,71 @@ static int bufr_check_desc_tableD( BUFR_Tables *tbls, int desc , char *array )
       arr_del( array, 1 );
       }
    return 1;
+   }
+
+/**
+ * @english
+ * depth first walk of the sequences a Table D descriptor refers to; path holds the 
+ * Table D descriptors being expanded
+ * @return 1 if one of them is met again, 0 otherwise
+ * @endenglish
+ * @francais
+ * @todo translate to French
+ * @endfrancais
+ * @ingroup internal
+ */
+static int bufr_tabled_reaches_itself( BUFR_Tables *tbls, int desc, char *path )
+   {
+   EntryTableD  *etd;
+   int  i, count;
+   int  *pival;
+
+   if (DESC_TO_F( desc ) != 3) return 0;
+
+   count = arr_count( path );
+   for (i = 0; i < count ; i++ )
+      {
+      pival = (int *)arr_get( path, i );
+      if (pival && (*pival == desc)) return 1;
+      }
+
+   etd = bufr_fetch_tableD( tbls, desc );
+   if (etd == NULL) return 0;
+
+   arr_add( path, (char *)&desc );
+   for (i = 0; i < etd->count ; i++ )
+      {
+      if (bufr_tabled_reaches_itself( tbls, etd->descriptors[i], path )) return 1;
+      }
+   arr_del( path, 1 );
+   return 0;
+   }
+
+/**
+ * @english
+ * tell whether the expansion of a Table D descriptor would never end, because
+ * its sequence refers to itself, directly or through other sequences
+ * (bufr_load_l_tableD() and bufr_load_m_tableD() report such tables with -2 
+ * but keep them)
+ * @param  tbls: tables to look in
+ * @param  desc: Table D descriptor
+ * @return 1 if circular, 0 otherwise
+ * @endenglish
+ * @francais
+ * @todo translate to French
+ * @endfrancais
+ * @ingroup tables
+ */
+int bufr_tabled_is_circular( BUFR_Tables *tbls, int desc )
+   {
+   char *path;
+   int   rtrn;
+
+   if (tbls == NULL) return 0;
+   path = (IntArray)arr_create( 16, sizeof(int), 16 );
+   rtrn = bufr_tabled_reaches_itself( tbls, desc, path );
+   arr_free( &path );
+   return rtrn;
    }
 
 /**
